@@ -25,10 +25,12 @@ the `notes`/`meta.json` of the change. `detected` = exit 1 + VIOLATION line.
 |---|---|---|---|
 %s
 
-Changes that were first missed and led to stronger checks (19 of 72): round 1 - C07-b, C08-a,
+Changes that were first missed and led to stronger checks (32 of 108): round 1 - C07-b, C08-a,
 C08-b, C11-b; round 2 - C02-c, C07-d, C08-c, C08-d, C09-d, C10-c, C10-d, C11-c, C12-c, C13-d,
-C14-d, C15-d, C17-c, C18-c (what was added for each is in section 8). Release-only changes
-(C01-d, C03-c, C05-c) were caught at once because every behavioural check runs both builds.
+C14-d, C15-d, C17-c, C18-c; round 3 - C02-e, C02-f, C04-f, C06-f, C09-f, C11-f, C12-e, C13-f,
+C17-f, C18-e, C18-f (+ C06-e, C07-e, caught by the copy probe that C02-f motivated). What was added
+for each is in section 8. Release-only changes (C01-d, C03-c, C05-c, C13-f) and debug-only ones
+(C10-f) are caught because every behavioural check runs both builds.
 """ % (len(rows), "\n".join(rows))
 p = os.path.join(V, "DESIGN.md")
 s = open(p).read()
